@@ -29,6 +29,22 @@ type c13Byte struct {
 
 func runC13(r *core.Run) {
 	firstCallClause(r, "sequtil.DNA", "sequtil.Ntoi", "sequtil.Iton")
+	askedAgain(r, []againFunc{
+		{"DNATo2Bit", func(in []byte) string { return fmt.Sprintf("%x", sequtil.DNATo2Bit([]byte("x"), in)) }},
+		{"DNAFrom2Bit", func(in []byte) string { return string(sequtil.DNAFrom2Bit([]byte("x"), in)) }},
+		{"Ntoi", func(in []byte) string {
+			if len(in) != 1 {
+				panic("not one byte")
+			}
+			return fmt.Sprint(sequtil.Ntoi(in[0]))
+		}},
+		{"Iton", func(in []byte) string {
+			if len(in) != 1 {
+				panic("not one byte")
+			}
+			return string([]byte{sequtil.Iton(int(in[0]))}) + string([]byte{sequtil.Iton(int(in[0]) - 128)})
+		}},
+	}, againInputs([]string{"ACG", "acgtTTTT"}, "", "ACGT", "acgtACGTa", "TTTTTTTTN"))
 	racePass(r, "race-sequtil", "ReverseComplement(String), DNATo2Bit/From2Bit, Translate(ReadingFrames), CanonicalSubsequences, AminoName on one shared src")
 
 	L := core.Pick(r, 5, 8)
